@@ -16,12 +16,14 @@ import (
 )
 
 type subCase struct {
-	stack    []layerSpec // T<tag> | M, outermost first
-	subErr   bool
-	closeErr bool
-	n        int
-	script   string // per message: a ack, n nack, u left unsettled until after Close
-	reads    int
+	stack  []layerSpec // T<tag> | M, outermost first
+	subErr bool
+	closes []bool // one entry per Close call (1..3): true = the innermost subscriber's Close fails that time
+	n      int
+	// per message: a ack / n nack right after receiving; A ack / N nack AFTER the subscription context was cancelled;
+	// u left unsettled until after Close, then acked
+	script string
+	reads  int
 }
 
 func b01(b bool) string {
@@ -40,7 +42,7 @@ func (c subCase) head() string {
 	if sc == "" {
 		sc = "-"
 	}
-	return "sub " + joinOr(st, ",") + " " + b01(c.subErr) + " " + b01(c.closeErr) + " " + wh.Itoa(c.n) + " " + sc + " " + wh.Itoa(c.reads)
+	return "sub " + joinOr(st, ",") + " " + b01(c.subErr) + " " + bits(c.closes) + " " + wh.Itoa(c.n) + " " + sc + " " + wh.Itoa(c.reads)
 }
 
 func parseSub(f []string) subCase {
@@ -51,7 +53,10 @@ func parseSub(f []string) subCase {
 		}
 	}
 	c.subErr = f[2] == "1"
-	c.closeErr = f[3] == "1"
+	c.closes = parseBits(f[3])
+	if len(c.closes) == 0 {
+		c.closes = []bool{false}
+	}
 	c.n, _ = strconv.Atoi(f[4])
 	if f[5] != "-" {
 		c.script = f[5]
@@ -62,17 +67,21 @@ func parseSub(f []string) subCase {
 
 // scriptSub is the innermost subscriber: it offers its messages one by one on an unbuffered channel and closes the
 // channel when Close is called (like the real subscribers do).
+//
+// Like the real subscribers it gives every message a context derived from the subscription context (cancelled with
+// it, and when the subscriber is closed).
 type scriptSub struct {
-	msgs     []*message.Message
-	subErr   bool
-	closeErr bool
-	ch       chan *message.Message
-	closing  chan struct{}
-	done     chan struct{}
-	once     sync.Once
-	mu       sync.Mutex
-	closes   int
-	started  bool
+	msgs        []*message.Message
+	subErr      bool
+	closeScript []bool // Close call i fails iff closeScript[i]
+	ch          chan *message.Message
+	closing     chan struct{}
+	done        chan struct{}
+	once        sync.Once
+	mu          sync.Mutex
+	closes      int
+	started     bool
+	cancels     []context.CancelFunc
 }
 
 func (s *scriptSub) Subscribe(ctx context.Context, topic string) (<-chan *message.Message, error) {
@@ -81,6 +90,11 @@ func (s *scriptSub) Subscribe(ctx context.Context, topic string) (<-chan *messag
 	}
 	s.mu.Lock()
 	s.started = true
+	for _, m := range s.msgs {
+		mctx, cancel := context.WithCancel(ctx)
+		m.SetContext(mctx)
+		s.cancels = append(s.cancels, cancel)
+	}
 	s.mu.Unlock()
 	go func() {
 		defer close(s.done)
@@ -99,14 +113,19 @@ func (s *scriptSub) Subscribe(ctx context.Context, topic string) (<-chan *messag
 
 func (s *scriptSub) Close() error {
 	s.mu.Lock()
+	call := s.closes
 	s.closes++
 	started := s.started
+	cancels := s.cancels
 	s.mu.Unlock()
 	s.once.Do(func() { close(s.closing) })
 	if started {
 		<-s.done
 	}
-	if s.closeErr {
+	for _, c := range cancels {
+		c()
+	}
+	if call < len(s.closeScript) && s.closeScript[call] {
 		return errClose
 	}
 	return nil
@@ -131,7 +150,7 @@ func hasM(st []layerSpec) bool {
 }
 
 func runSub(c subCase) (string, string) {
-	inner := &scriptSub{subErr: c.subErr, closeErr: c.closeErr, ch: make(chan *message.Message),
+	inner := &scriptSub{subErr: c.subErr, closeScript: c.closes, ch: make(chan *message.Message),
 		closing: make(chan struct{}), done: make(chan struct{})}
 	idOf := map[*message.Message]int{}
 	for i := 0; i < c.n; i++ {
@@ -163,7 +182,9 @@ func runSub(c subCase) (string, string) {
 	}
 	rec := " @ inner=" + wh.HexS(structName(inner))
 	withM := hasM(c.stack)
-	out, err := sub.Subscribe(context.Background(), "topic")
+	subCtx, cancelSub := context.WithCancel(context.Background())
+	defer cancelSub()
+	out, err := sub.Subscribe(subCtx, "topic")
 	obs := "sub=" + errClass(err)
 	var recv []string
 	var got []*message.Message
@@ -226,18 +247,40 @@ func runSub(c subCase) (string, string) {
 	quiesce(reg, expA, true)
 	a, _ := gatherCounts(reg)
 	obs += "|A=" + a
-	cr := func() (r string) {
-		defer func() {
-			if v := recover(); v != nil {
-				r = wh.PanicText(v)
+	// settle AFTER the subscription context was cancelled: the message is settled all the same and must be counted
+	if strings.ContainsAny(c.script, "AN") && err == nil {
+		cancelSub()
+		for i := 0; i < 20; i++ { // give anything that (wrongly) reacts to the cancellation the time to do so
+			runtime.Gosched()
+			time.Sleep(200 * time.Microsecond)
+		}
+		for _, m := range got {
+			if id, ok := idOf[m]; ok && id < len(c.script) {
+				switch c.script[id] {
+				case 'A':
+					m.Ack()
+				case 'N':
+					m.Nack()
+				}
 			}
-		}()
-		return errClass(sub.Close())
-	}()
+		}
+	}
+	// Close, as often as the case says (a caller that retries a failed Close)
+	var crs []string
+	for range c.closes {
+		crs = append(crs, func() (r string) {
+			defer func() {
+				if v := recover(); v != nil {
+					r = wh.PanicText(v)
+				}
+			}()
+			return errClass(sub.Close())
+		}())
+	}
 	inner.mu.Lock()
 	closes := inner.closes
 	inner.mu.Unlock()
-	obs += "|close=" + cr + "/" + wh.Itoa(closes)
+	obs += "|close=" + strings.Join(crs, ",") + "/" + wh.Itoa(closes)
 	ch := "-"
 	if out != nil {
 		select {
